@@ -1,8 +1,134 @@
-(* C12 — fs.path functions obey their algebraic laws for every string. *)
+(* C12 — fs.path functions obey their algebraic laws for every string.
+   Nothing but statements closed by [exact] and Print Assumptions. *)
 From Coq Require Import List NArith Bool.
-From PyFS Require Import Base.PyStr Base.Outcome Path.PathModel Path.PathSpec.
+From PyFS Require Import Base.PyStr Base.Outcome Path.PathModel Path.PathSpec Path.PathProofs.
 Import ListNotations.
 
+(* normpath equals component-wise resolution and raises exactly when it climbs too far *)
+Theorem C12_normpath_spec : forall s, normpath s = spec_normpath s.
+Proof. exact normpath_spec. Qed.
+Print Assumptions C12_normpath_spec.
+
+Theorem C12_normpath_raises_iff : forall s,
+  normpath s = Err IllegalBackReference <-> resolve (comps s) = None.
+Proof. exact normpath_raises_iff. Qed.
+Print Assumptions C12_normpath_raises_iff.
+
+Theorem C12_normpath_total : forall s, is_crash (normpath s) = false.
+Proof. exact normpath_total. Qed.
+Print Assumptions C12_normpath_total.
+
+Theorem C12_normpath_idem : forall s t, normpath s = Ok t -> normpath t = Ok t.
+Proof. exact normpath_idem. Qed.
+Print Assumptions C12_normpath_idem.
+
+(* no '', '.', '..' component in the result *)
+Theorem C12_normpath_clean : forall s t, normpath s = Ok t ->
+  exists cs, Forall good cs /\ t = to_path (starts_c slash s) cs.
+Proof. exact normpath_clean. Qed.
+Print Assumptions C12_normpath_clean.
+
+Theorem C12_normalised_form : forall p,
+  normpath p = Ok p <-> exists abs cs, Forall good cs /\ p = to_path abs cs.
+Proof. exact normalised_form. Qed.
+Print Assumptions C12_normalised_form.
+
+(* inverses on normalised paths p = to_path abs cs *)
+Theorem C12_split : forall abs cs, Forall good cs ->
+  psplit (to_path abs cs) = spec_split (abs, cs).
+Proof. exact split_nf. Qed.
+Print Assumptions C12_split.
+
+Theorem C12_join_split : forall abs cs, Forall good cs ->
+  pjoin [dirname (to_path abs cs); basename (to_path abs cs)] = Ok (to_path abs cs).
+Proof. exact join_split_nf. Qed.
+Print Assumptions C12_join_split.
+
+Theorem C12_split_join : forall abs cs, Forall good cs -> forall c, good c ->
+  pjoin [to_path abs cs; c] = Ok (to_path abs (cs ++ [c]))
+  /\ psplit (to_path abs (cs ++ [c])) = (to_path abs cs, c).
+Proof. exact split_join_nf. Qed.
+Print Assumptions C12_split_join.
+
+Theorem C12_combine : forall abs cs, Forall good cs -> forall c, good c -> lstrip_space c = c ->
+  combine (to_path abs cs) c = to_path abs (cs ++ [c]).
+Proof. exact combine_nf. Qed.
+Print Assumptions C12_combine.
+
+Theorem C12_combine_split : forall abs cs, Forall good cs ->
+  Forall (fun c => lstrip_space c = c) cs ->
+  combine (dirname (to_path abs cs)) (basename (to_path abs cs)) = to_path abs cs.
+Proof. exact combine_split_nf. Qed.
+Print Assumptions C12_combine_split.
+
+Theorem C12_iteratepath : forall s,
+  iteratepath s = match resolve (comps s) with
+                  | None => Err IllegalBackReference | Some cs => Ok cs end.
+Proof. exact iteratepath_spec. Qed.
+Print Assumptions C12_iteratepath.
+
+Theorem C12_recursepath : forall abs cs, Forall good cs ->
+  recursepath (to_path abs cs) false = Ok (map (to_path true) (prefixes cs)).
+Proof. exact recursepath_nf. Qed.
+Print Assumptions C12_recursepath.
+
+Theorem C12_recursepath_reverse : forall s,
+  recursepath s true = omap (@rev str) (recursepath s false).
+Proof. exact recursepath_reverse. Qed.
+Print Assumptions C12_recursepath_reverse.
+
+Theorem C12_parts : forall s,
+  parts s = match cform s with
+            | None => Err IllegalBackReference | Some f => Ok (spec_parts f) end.
+Proof. exact parts_spec. Qed.
+Print Assumptions C12_parts.
+
+(* abspath / relpath only add or strip the leading slash *)
+Theorem C12_abspath : forall abs cs, Forall good cs -> abspath (to_path abs cs) = to_path true cs.
+Proof. exact abspath_nf. Qed.
+Print Assumptions C12_abspath.
+
+Theorem C12_relpath : forall abs cs, Forall good cs -> relpath (to_path abs cs) = to_path false cs.
+Proof. exact relpath_nf. Qed.
+Print Assumptions C12_relpath.
+
+(* whole components, never raw string prefixes *)
+Theorem C12_isbase : forall a1 cs1 a2 cs2, Forall good cs1 -> Forall good cs2 ->
+  isbase (to_path a1 cs1) (to_path a2 cs2) = cprefix cs1 cs2.
+Proof. exact isbase_nf. Qed.
+Print Assumptions C12_isbase.
+
+Theorem C12_isparent : forall a1 cs1 a2 cs2, Forall good cs1 -> Forall good cs2 ->
+  isparent (to_path a1 cs1) (to_path a2 cs2) = spec_isparent (a1, cs1) (a2, cs2).
+Proof. exact isparent_nf. Qed.
+Print Assumptions C12_isparent.
+
+Theorem C12_frombase : forall a cs1 cs2, Forall good cs1 -> Forall good cs2 ->
+  cprefix cs1 cs2 = true ->
+  exists r, frombase (to_path a cs1) (to_path a cs2) = Ok r
+            /\ to_path a cs1 ++ r = to_path a cs2.
+Proof. exact frombase_nf. Qed.
+Print Assumptions C12_frombase.
+
+Theorem C12_issamedir : forall a1 cs1 a2 cs2, Forall good cs1 -> Forall good cs2 ->
+  issamedir (to_path a1 cs1) (to_path a2 cs2) = Ok (spec_issamedir (a1, cs1) (a2, cs2)).
+Proof. exact issamedir_nf. Qed.
+Print Assumptions C12_issamedir.
+
+Theorem C12_relativefrom : forall a1 csb a2 csp, Forall good csb -> Forall good csp ->
+  exists r, relativefrom (to_path a1 csb) (to_path a2 csp) = Ok r
+            /\ resolve (csb ++ comps r) = Some csp.
+Proof. exact relativefrom_nf. Qed.
+Print Assumptions C12_relativefrom.
+
+(* '/ab' is not below '/a' *)
 Theorem C12_isbase_not_string_prefix : isbase [slash; 97%N] [slash; 97%N; 98%N] = false.
 Proof. reflexivity. Qed.
 Print Assumptions C12_isbase_not_string_prefix.
+
+(* non-vacuity: a normalised path with three components meets every hypothesis above *)
+Example C12_nonvacuous :
+  Forall good [[97%N]; [98%N; dot; 99%N]; [100%N]]
+  /\ normpath (to_path true [[97%N]; [98%N; dot; 99%N]; [100%N]])
+     = Ok (to_path true [[97%N]; [98%N; dot; 99%N]; [100%N]]).
+Proof. split; [repeat constructor; discriminate | reflexivity]. Qed.
